@@ -13,11 +13,11 @@ import (
 func init() { register("C04", checkC04) }
 
 type c04ctx struct {
-	c                                   *Ctx
-	fType, fIssued, fExp, fParent, fFP  *types.Var
-	fRaw, fSig, fPub, fCerts            *types.Var
-	oPI, oName, oTime                   *types.Var
-	leafC, interC, rootC                int64
+	c                                  *Ctx
+	fType, fIssued, fExp, fParent, fFP *types.Var
+	fRaw, fSig, fPub, fCerts           *types.Var
+	oPI, oName, oTime                  *types.Var
+	leafC, interC, rootC               int64
 }
 
 func checkC04(c *Ctx) {
@@ -695,7 +695,9 @@ func (x *c04ctx) issuance() {
 				fpOK = true
 			}
 		}
-		isIssuedAt := func(v ssa.Value) bool { return lookThrough(p.Deref(v, last)) == issuedAt || p.Deref(v, last) == issuedAt }
+		isIssuedAt := func(v ssa.Value) bool {
+			return lookThrough(p.Deref(v, last)) == issuedAt || p.Deref(v, last) == issuedAt
+		}
 		ofParent := func(v ssa.Value, f *types.Var) bool {
 			d := p.Deref(v, last)
 			r, _ := accessPath(d)
